@@ -21,7 +21,9 @@ THEOREMS = {
             "predictChunk_eq_chunkFold_all",
             "predictExp_out_of_norm", "canon_after_query", "clusterStep", "clusterFold_congr", "cluster_chunk_split",
             "predictChunk_eq_clusterFold"],
-    "C06": ["incremental_eq_batch", "spec_chunked", "rowsOf_append", "fitRec_append", "first_partial_is_fit", "neighbors_history"],
+    "C06": ["incremental_eq_batch", "spec_chunked", "rowsOf_append", "fitRec_append", "first_partial_is_fit", "neighbors_history",
+            "post_eq_mapKV", "rec_stats_append", "rec_append_post", "fit_closed", "partialFit_closed", "fit_partialFit_append",
+            "chunked_eq_batch_full", "incremental_eq_batch_full"],
     "C07": ["fit_discards", "resetFor_congr", "sameConfig_fresh", "fit_after_history_eq_fresh"],
     "C08": ["keys_eq_arms", "added_immediately", "removed_never_returns", "arms_unchanged_by_training", "unwrap_shape",
             "predictExp_keys", "predict_mem", "argmaxFirst_mem", "draw_length", "chunk_rows"],
@@ -61,7 +63,7 @@ IMPORTS = {
     "C03": ["MabModel.Props.C03"],
     "C04": ["MabModel.Props.C04"],
     "C05": ["MabModel.Props.C05", "MabModel.Props.C05b", "MabModel.Props.C05c", "MabModel.Props.C05d"],
-    "C06": ["MabModel.Props.C06"],
+    "C06": ["MabModel.Props.C06", "MabModel.Props.C06b"],
     "C07": ["MabModel.Props.C07"],
     "C08": ["MabModel.Props.C08"],
     "C09": ["MabModel.Props.C09"],
